@@ -72,6 +72,7 @@ def run_property(pid, tier="quick", seed=0, only=None, verbose=False, do_bounded
     timeout = 10000 if tier == "quick" else 60000
     funcs, obl_total, obl_ok, backends, solver_time, prims, samples = {}, 0, 0, {}, 0.0, set(), []
     canaries, all_oids, contract_rows, vac = [], [], [], []
+    crashed = []
     for con in contracts:
         if only and only not in con.name:
             continue
@@ -91,6 +92,8 @@ def run_property(pid, tier="quick", seed=0, only=None, verbose=False, do_bounded
             undecided.append("%s: precondition is contradictory (vacuity guard)" % con.name)
         for u in res.undecided:
             undecided.append("%s: %s" % (con.name, u))
+        if res.crashed:
+            crashed.append(con.name)
         for oid, o in res.obligations.items():
             obl_total += 1
             all_oids.append(oid)
@@ -220,6 +223,7 @@ def run_property(pid, tier="quick", seed=0, only=None, verbose=False, do_bounded
         ev["level"] = "other"
         cov["explanation"] = "undecided items on this run (see coverage.undecided): not a proof-level result"
     cov["undecided"] = undecided
+    cov["engine_errors"] = crashed
     cov["known_findings_reported"] = knowns
     ev["violations"] = len(violations)
     ev["wall_s"] = round(time.time() - t0, 2)
@@ -294,6 +298,8 @@ def main(argv=None):
         print(v)
     if violations:
         return 1
+    if cov.get("engine_errors"):
+        return 3
     if undecided:
         return 2
     return 0
